@@ -2,7 +2,7 @@
    Statements only; proofs in Proofs/C08.v.
    Suits: clubs = 0, diamonds = 1, hearts = 2, spades = 3; [next_suit_spec]: S -> H -> D -> C -> S. *)
 From CKC Require Import Base.Prelude Spec.Layout.
-From CKC Require Import Model.Card Model.Hands Model.Five Proofs.FreeFacts Proofs.C08.
+From CKC Require Import Model.Card Model.Hands Model.Five Proofs.FreeFacts Proofs.C08 Model.Shift Proofs.C08Sized.
 Open Scope N_scope.
 
 Theorem C08_card : forall r s, r < 13 -> s < 4 -> shift_suit (layout r s) = layout r (next_suit_spec s).
@@ -21,6 +21,14 @@ Theorem C08_slots : forall ws,
   shift_suit_hand ws = map shift_suit ws /\ length (shift_suit_hand ws) = length ws /\
   forall i, (i < length ws)%nat -> nth i (shift_suit_hand ws) 0 = shift_suit (nth i ws 0).
 Proof. exact shift_hand_slots. Qed.
+
+(* the six container implementations, each transcribed as written (Model/Shift.v: one literal of shifted accessors
+   per size), are that slot-wise map for every container size, holding ANY words; no other size exists.
+   [shift_suit_sized] is what the correspondence check runs against Two .. Seven::shift_suit. *)
+Theorem C08_slots_sized : forall ws,
+  ((2 <= length ws <= 7)%nat -> shift_suit_sized ws = Ok (shift_suit_hand ws)) /\
+  (~ (2 <= length ws <= 7)%nat -> shift_suit_sized ws = Panic).
+Proof. intros ws. exact (conj (sized_is_map ws) (sized_panics ws)). Qed.
 
 (* the value of five, six or seven distinct real cards is unchanged by ANY bijection of the suits *)
 Theorem C08_relabel_invariant : forall chk f n ws,
@@ -71,6 +79,7 @@ Print Assumptions C08_card.
 Print Assumptions C08_cycle.
 Print Assumptions C08_blank.
 Print Assumptions C08_slots.
+Print Assumptions C08_slots_sized.
 Print Assumptions C08_relabel_invariant.
 Print Assumptions C08_relabel_same.
 Print Assumptions C08_shift_invariant.
